@@ -1097,5 +1097,5 @@ func runC12(f *common.Flags, res *common.Result, m *mdl) {
 			res.Notes = append(res.Notes, fmt.Sprintf("strace sweep on the unmodified binary: %d runs (SIGKILL / EIO at the k-th invocation of each of %s, per thread), direct oracles only", n, straceCalls))
 		}
 	}
-	res.Rule = fmt.Sprintf("%d scenarios (an entry whose output file was removed, as Trim may do, with a source that delivers other bytes of the same length on the second pass AND a stop at every operation; new entry, overwrite, same content again, output shared with another id, partial output left by an earlier interruption, pre-damaged outputs: truncated / bit-flipped / longer / emptied; sizes 0, 1, 2, 5000, 100000; source-reader faults: error at offset r in either pass, early EOF, different bytes on the second pass, Seek failures, each also on a store where the output of the faulty Put is already complete and named by another id; every scenario without reader fault through Put AND through PutBytes); in each scenario without reader fault EVERY file operation of the real Put / PutBytes (observed through the os shim, os.WriteFile being open+write+close) is made to fail, to be a short write / short read, and the run is stopped before it, after it and in the middle of a write; after each, all lookups run in a fresh Cache value; compared with the faulty semantics of the model: result, operation trace, all lookups, contents of all files; direct oracles: SHA-256 of GetBytes, size of GetFile's file, from undamaged starts SHA-256 of GetFile's file, unrelated ids unchanged, no panic, every call that returns leaves the process with the descriptors it had (/proc/self/fd before and after, collector off); then %s", len(scs), nh)
+	res.Rule = fmt.Sprintf("%d scenarios (an entry whose output file was removed, as Trim may do, with a source that delivers other bytes of the same length on the second pass AND a stop at every operation; new entry, overwrite, same content again, output shared with another id, partial output left by an earlier interruption, pre-damaged outputs: truncated / bit-flipped / longer / emptied; sizes 0, 1, 2, 5000, 100000; source-reader faults: error at offset r in either pass, early EOF, different bytes on the second pass, Seek failures, each also on a store where the output of the faulty Put is already complete and named by another id; every scenario without reader fault through Put AND through PutBytes); in each scenario without reader fault EVERY file operation of the real Put / PutBytes (observed through the os shim, os.WriteFile being open+write+close) is made to fail, to be a short write / short read, and the run is stopped before it, after it and in the middle of a write; after each, all lookups run in a fresh Cache value; compared with the faulty semantics of the model: result, operation trace, all lookups, contents of all files; direct oracles: SHA-256 of GetBytes, size of GetFile's file, from undamaged starts SHA-256 of GetFile's file, unrelated ids unchanged, no panic, every call that returns leaves the process with the descriptors it had (/proc/self/fd before and after, collector off); sizes past internal limits (CONVENTIONS addendum 4, item 4): an output of 1 MiB + 3 bytes (thorough: also 64 KiB + 1 and 4 MiB + 1) as a new entry, stored again for the same id and already stored for another id, with a fault at the first 8, the last 8 and every eighth file operation, and with every second-pass source fault (error, early end, other bytes at offsets 0, 32768, the middle, the last byte; failing Seek) on the two stores where the output is already complete -- direct oracles only (unrelated ids unchanged, checksum, size, exact file), the model is not run on contents of this size; then %s", len(scs), nh)
 }
